@@ -4,4 +4,5 @@ let () =
   | _ :: "int" :: rest -> Intmain.run (List.mem "--spec" rest)
   | _ :: "cov" :: _ -> Covmain.run ()
   | _ :: "cmp" :: _ -> Cmpmain.run ()
+  | _ :: "run" :: _ -> Runmain.run ()
   | _ -> prerr_endline "usage: zwmodel int [--spec] | cov"; exit 2
